@@ -16,6 +16,14 @@ theorem memSkip_otherGuards_expected : memSkip_otherGuards = ["!ok", "chunk == n
 
 theorem sortCalls_expected : sortCalls = "sort.Stable" := by decide
 
+/-- the sort of a memtable chunk must be *stable* (`sort.Stable`, with the strict `SortAux.Less`): rows of
+equal time keep their arrival order, which is what makes "the later row wins" true. `sort.Sort` is
+not stable above 12 elements. -/
+theorem sortStable_expected : sortCalls = "sort.Stable" ∧ ∀ a : Int, sortLess a a = false := by
+  refine ⟨by decide, ?_⟩
+  intro a
+  simp [sortLess]
+
 theorem src_getSortedRecSafe_tail_expected : src_getSortedRecSafe_tail = "hlp := record.NewColumnSortHelper() ; defer hlp.Release() ; chunk.Mu.Lock() ; writeRec := chunk.WriteRec.rec ; if writeRec == nil || writeRec.RowNums() == 0 { chunk.Mu.Unlock() return nil } ; chunk.SortRecordNoLock(hlp) ; var rec = chunk.WriteRec.rec.Copy(ascending, &tr, schema) ; chunk.Mu.Unlock() ; return rec" := by rfl
 
 theorem src_SortRecord_expected : src_SortRecord = "{ if !writeRec.timeAsd { writeRec.rec = hlp.Sort(writeRec.rec) writeRec.timeAsd = true } }" := by rfl
